@@ -98,6 +98,12 @@ def generate(run_seed, tier):
         mcfg['molecules'] += [{'name': 'H', 'mix': 10 ** c.uniform(-5, -3)},
                               {'name': 'e-', 'mix': 10 ** c.uniform(-8, -6)}]
         mcfg['opac']['wn'] = [3000.0, 3000.0 * 10 ** c.uniform(0.4, 0.9)]
+    if c.random() < 0.15:
+        # a species that starts at exactly zero abundance (raised later)
+        m0 = c.choice([m for m in mcfg['molecules']
+                       if m['name'] not in ('H', 'e-')])
+        m0.pop('gas', None)
+        m0['mix'] = 0.0
     mcfg['cia_pairs'] = ['H2-H2', 'H2-He'][:c.randint(1, 2)]
     mcfg['new_path'] = c.random() < 0.3
     mcfg['clouds_pressure'] = 10 ** c.uniform(2, 5.5)
@@ -129,8 +135,11 @@ def generate(run_seed, tier):
                         a + o.uniform(0.2, 0.4)])
         elif r < 0.68:
             ops.append(['store_contributions', o.choice([1, 3, 6])])
-        elif r < 0.76:
+        elif r < 0.74:
             ops.append(['set', 'T', o.uniform(500, 2400)])
+        elif r < 0.76:
+            # the cache's interpolation mode is changed under the living model
+            ops.append(['set_interp', o.choice(['linear', 'exp'])])
         elif r < 0.84:
             ops.append(['set', o.choice(mols), 10 ** o.uniform(-9, -3.5)])
         elif r < 0.88:
@@ -236,8 +245,10 @@ def execute(case, keep_text=False):
                 if model.contribution_list is not built_list and \
                         [id(c) for c in model.contribution_list] != \
                         [id(c) for c in built_list]:
+                    # nothing is demanded at the moment of the rejection, and
+                    # nothing is repaired here: the next valid evaluation on
+                    # this object must be right again (check_list / R6)
                     out.bump('probes', 'swap_left_dirty')
-                    model.contribution_list = list(built_list)
                 return None
             viol('unexpected-invalid', what, 'valid atmosphere rejected', step)
             raise Stop()
@@ -533,6 +544,13 @@ def execute(case, keep_text=False):
                         raise Stop()
                 if not collision:
                     evaluate(step, 'store_contributions', run, run, cmp)
+            elif k == 'set_interp':
+                from taurex.cache import OpacityCache
+                OpacityCache().set_interpolation(op[1])
+                R.readd_opacities(cfg, op[1])
+                for kk in ('H', 'e-'):
+                    OpacityCache().opacity_dict.pop(kk, None)
+                out.bump('probes', 'interpolation_mode_changed_under_model')
             elif k == 'set':
                 if op[1] in model.fittingParameters:
                     model.fittingParameters[op[1]][3](op[2])
